@@ -154,4 +154,27 @@ CHECKS["C08"] = {
     "level_note": "Trusted: capture_delta/Value::to_string as the rendering of what a probe node sees; the writer-side probe as ground truth of what was written.",
 }
 
+CHECKS["C03"] = {
+    "title": "User code runs exactly when an active input ticked and required inputs are valid",
+    "level": "exploration",
+    "technique": "exhaustive enumeration of input-policy combinations x passive-marker masks x tick histories on real static nodes; "
+                 "complete evaluation log compared with the activation/validity reference rule",
+    "design_ref": "DESIGN.md 2/C03",
+    "parts": [{"name": "gate", "exe": "c03_gate", "sources": ["c03_gate.cpp"], "shards": 16}],
+    "rule": "probe node types: all 36 combinations of InputActivity {Active,Passive} x InputValidity {Valid,Unchecked,AllValid} on two TS inputs; "
+            "the 8 activity combinations on three inputs (validities Valid,Unchecked,Valid); parameter-order variants with State / Scalar / "
+            "NodeScheduler listed before the inputs; one structural TSL input under Valid/AllValid/Unchecked; a self-scheduling probe; each under "
+            "every wiring-time passive(port) marker mask (a mask removing the last active input must be rejected at wiring); each followed by a "
+            "second stage reading the probe output; x every tick pattern of every source over T cycles (never-valid, late-valid, simultaneous). "
+            "Oracle: the probe runs in cycle t iff (an active input modified at t or its own wake-up due) and every required input valid; every "
+            "logged read (value/modified/valid) and every output equals the reference. non-trivial = histories where the gate had to suppress at "
+            "least one candidate evaluation.",
+    "bounds": {"quick": "T=5 (2 inputs), T=4 (3 inputs)", "thorough": "T=6 (2 inputs), T=5 (3 inputs)"},
+    "min_counters": {"quick": {"nontrivial": 10000, "gate.probe_types": 50, "gate.all_passive_rejections": 10}},
+    "assumptions": COMMON_ASSUMPTIONS + ["Dynamic make_active/make_passive at run time and the documented start-up sampling of nodes without any validity "
+                                           "requirement inside nested graphs (nested_bindings.h) are not part of the alphabet."],
+    "level_text": "Complete enumeration of the policy x marker x history space on real static nodes against the reference gate rule.",
+    "level_note": "Trusted: the reference rule in harness/c03_gate.cpp (reference()).",
+}
+
 NOT_APPLICABLE = {}
